@@ -1,0 +1,13 @@
+//go:build verif
+// +build verif
+
+package blocklist
+
+import "time"
+
+// VerifSetTimeNow replaces the package clock and returns the previous one.
+func VerifSetTimeNow(f func() time.Time) func() time.Time {
+	old := timeNow
+	timeNow = f
+	return old
+}
